@@ -26,7 +26,7 @@ RULE = (
     'variables) with values built from parts: literal text over printable '
     'ASCII without $ ` \\ " ! (incl. space, tab, single quote, #, =, ;, &, |, '
     '*, ?, (, ), <, >, {, }, [, ], %, ~ in non-leading position) and unicode '
-    '(é ü 日 😀 nbsp); optional leading tilde prefix (~, ~root, ~nosuchuser, '
+    '(é ü 日 😀 nbsp) and newline; optional leading tilde prefix (~, ~root, ~nosuchuser, '
     '~+, ~-) followed by nothing, /tail or whitespace+tail; references '
     '$NAME / ${NAME} to EARLIER variables. The function text written by the '
     'real _write_runtime_environment is sourced by bash -euo pipefail and '
@@ -45,8 +45,13 @@ ASSUMPTIONS = [
     'metacharacter other than "/" or whitespace (e.g. "~a;b", "~a\'b") are '
     'outside the generated domain (no reading of the statement fixes their '
     'meaning).',
-    'Newlines / control characters are not "printable" and are not generated '
-    '(tab is).',
+    'Control characters other than tab and newline are not generated; a '
+    'newline inside a value (a multi-line, triple-quoted setting) must '
+    'reach the job as is.  A value never starts or ends with a newline (the '
+    'configuration parser strips those; observed outside the domain: the '
+    '"$"-anchored tilde patterns drop one trailing newline of "~/x\\n").',
+    'For a multi-line value with a leading tilde prefix both the expanded '
+    'and the literal prefix are accepted.',
     'Values are passed as job_conf["environment"] (an ordered dict) as '
     'task_job_mgr does; the flow.cylc parser\'s own quoting rules are not '
     'part of this property.',
@@ -55,7 +60,7 @@ MANIFEST = {'engine': 'F', 'technique': 'generated env sections evaluated by rea
 
 SAFE_ASCII = [
     chr(c) for c in range(0x20, 0x7f) if chr(c) not in '$`\\"!']
-UNI = ['é', 'ü', '日', '😀', ' ', '\t']
+UNI = ['é', 'ü', '日', '😀', ' ', '\t', '\n', '\n']
 PLAIN = list('abcXYZ019_./-')
 NAMES = ['v', 'v1', 'V_2', 'vFoo', 'v_bar', 'Q_x', 'Q_Y9', 'vv', 'v__',
          'VAR_A', 'VAR_B', 'Q_lower', 'vHOME', 'vPATH']
@@ -91,6 +96,12 @@ def cases(draw):
                               draw(st.booleans())])
             else:
                 parts.append(['lit', draw(_lit)])
+        # newlines only inside a value (a configured multi-line value never
+        # starts or ends with one)
+        if parts and parts[0][0] == 'lit':
+            parts[0][1] = parts[0][1].lstrip('\n')
+        if parts and parts[-1][0] == 'lit':
+            parts[-1][1] = parts[-1][1].rstrip('\n')
         out.append({'name': name, 'parts': parts})
     return {'vars': out, 'param_var': draw(st.integers(0, 5)) == 0}
 
@@ -134,6 +145,13 @@ def render(case):
                 alts = [a + e for a in alts for e in exp_by_idx[idx]]
         if value == '':
             alts = [[('s', '')]]
+        if parts and parts[0][0] == 'tilde' and '\n' in value:
+            # a multi-line value with a leading tilde: nothing says whether
+            # the prefix is expanded; both readings are accepted
+            alts = alts + [
+                [('s', '~' + x[1]) if x[0] == 't' and k == 0 else x
+                 for k, x in enumerate(a)]
+                for a in alts if a and a[0][0] == 't']
         exp_by_idx.append(alts)
         res.append((v['name'], value, alts))
     return res
